@@ -25,6 +25,7 @@ struct World {
     std::vector<Req> reqs; std::vector<Seg> segs; size_t seg = 0, segoff = 0; bool scripted = false, shut = false;
     std::vector<Live> bufs; std::vector<int> ret; std::vector<int> err; std::vector<bool> done;
     uint64_t stream_timeout = ~0ull; std::string log; int fault = 0;
+    std::string wire; bool send_failed = false;             // request bytes as they reached the stream, in order
 };
 static World* W;
 
@@ -35,6 +36,19 @@ static std::string f_of(const std::string& payload, uint64_t tag) {      // the 
 static void build_script() {
     // called when every caller has sent its request
     int N = W->N;
+    {   // the wire must be the concatenation of the requests, each contiguous, in the order their writes completed or began
+        size_t pos = 0; std::vector<uint64_t> seen;
+        while (pos < W->wire.size()) {
+            if (W->wire.size() - pos < sizeof(rpc::Header)) { pmc_violation("request-bytes-interleaved", "trailing %zu bytes on the wire are not a request", W->wire.size() - pos); break; }
+            rpc::Header h; memcpy(&h, W->wire.data() + pos, sizeof h);
+            const Req* q = nullptr; for (auto& r : W->reqs) if (r.tag == h.tag) q = &r;
+            if (h.magic != rpc::Header().magic || !q || h.size != q->size || W->wire.size() - pos - sizeof h < h.size || W->wire.compare(pos + sizeof h, h.size, q->payload) != 0) {
+                pmc_violation("request-bytes-interleaved", "at wire offset %zu: the bytes are not one caller's complete request (header and payload of different calls interleaved)", pos); break; }
+            for (auto t : seen) if (t == h.tag) pmc_violation("request-sent-twice", "tag %llu appears twice on the wire", (unsigned long long)h.tag);
+            seen.push_back(h.tag); pos += sizeof h + h.size;
+        }
+        if (seen.size() != W->reqs.size()) pmc_violation("request-bytes-interleaved", "%zu requests on the wire, %zu writes completed", seen.size(), W->reqs.size());
+    }
     int perm = pmc_choose(N == 2 ? 2 : 6, PMC_PROG, 0, "response order");
     std::vector<int> order; { std::vector<int> v; for (int i = 0; i < N; i++) v.push_back(i); for (int k = 0; k < perm; k++) std::next_permutation(v.begin(), v.end()); order = v; }
     W->fault = pmc_choose(6, PMC_ENV, 1, "fault: none/unknown-tag/duplicate-tag/eof-after-header/bad-magic/eof-inside-body");
@@ -77,6 +91,18 @@ public:
         std::string all; for (int i = 0; i < cnt; i++) all.append((char*)iov[i].iov_base, iov[i].iov_len);
         if (W->shut) { errno = EPIPE; return -1; }
         if (all.size() < sizeof(rpc::Header)) pmc_broken("short request");
+        // environment: the stream takes the request at once / takes the header, blocks (other callers run), then takes the rest /
+        // takes the header, blocks, then fails (short write): requests of concurrent callers must not interleave on the wire, and a
+        // failed send must leave every caller with its own response or an error, never blocked
+        int how = pmc_choose(3, PMC_ENV, 1, "write: at once / header, yield, rest / header, yield, short write");
+        if (how == 0) W->wire += all;
+        else {
+            W->wire += all.substr(0, sizeof(rpc::Header)); W->log += 'y';
+            thread_yield(); thread_yield();
+            if (how == 2) { W->log += '!'; W->send_failed = true; return sizeof(rpc::Header); }
+            if (W->shut) { errno = EPIPE; return -1; }
+            W->wire += all.substr(sizeof(rpc::Header));
+        }
         rpc::Header h; memcpy(&h, all.data(), sizeof h);
         Req r; r.tag = h.tag; r.size = h.size; r.payload = all.substr(sizeof h); r.caller = -1;
         for (int c = 0; c < W->N; c++) if (!r.payload.empty() && r.payload[0] == char('a' + c)) r.caller = c;
@@ -90,7 +116,8 @@ public:
         if (W->shut) { errno = ENOTCONN; return -1; }
         if (!W->scripted) {
             // no response can arrive before its request was sent: let the other callers issue theirs (they do so as soon as they run)
-            for (int guard = 0; (int)W->reqs.size() < W->N && guard < 64; guard++) thread_yield();
+            for (int guard = 0; (int)W->reqs.size() < W->N && guard < 64 && !W->shut; guard++) thread_yield();
+            if (W->shut) { errno = ENOTCONN; return -1; }
             if ((int)W->reqs.size() < W->N) pmc_broken("callers did not send their requests");
             if (!W->scripted) build_script();
         }
